@@ -12,9 +12,35 @@ from harness.gen_scheme import INF, _num
 
 PROP = "C02"
 REQUIRED_THEOREMS = [
-    "objective_append", "group_penalty_length_unlinked", "applies_iff", "only_is_complement",
-    "constraints_remove_exactly", "relations_span", "retrieve_zero_on_constrained",
-    "combine_labels_nodup", "kron_row_spec", "alignMatrices_rows",
+    "objective_append",
+    "objective_single",
+    "lsExact_sound",
+    "nnlsExact_sound",
+    "block_is_ls_residual",
+    "interval_contains_iff",
+    "no_interval_applies_everywhere",
+    "applies_list",
+    "only_is_complement",
+    "constraints_remove_exactly",
+    "constraints_keep_columns",
+    "reduced_problem_equiv",
+    "relations_span",
+    "constraints_span",
+    "reduced_problem_equiv_counterexample",
+    "reduced_problem_equiv_counterexample_all",
+    "retrieve_zero_on_constrained",
+    "retrieve_related_exact",
+    "unionLabels_nodup",
+    "alignMatrices_rows",
+    "alignMatrices_single",
+    "combine_labels_nodup",
+    "combine_labels_mem",
+    "combine_col_d2",
+    "combine_d2_shape",
+    "group_penalty_length_unlinked",
+    "kron_row_spec",
+    "weighted_data_entry",
+    "unweighted_data",
 ]
 TRUSTED = [
     "hand-written model lean/GlotaranModel/C02.lean (+LinAlg.lean) of optimization/{matrix,estimation,data}_provider.py, "
